@@ -1,1 +1,2 @@
 import Ypv.Props.C09
+#print axioms Ypv.C09.placeholder
